@@ -19,7 +19,8 @@ pub struct FaultCase {
     pub with_shx: bool,
     /// generated short-write schedule (bytes accepted per write call, cycled)
     pub chunks: Vec<usize>,
-    /// 0 = ShapeWriter, 1 = the complete Writer (shape + attribute row per call, healthy .dbf destination)
+    /// 0 = ShapeWriter, 1 = the complete Writer (shape + attribute row per call, healthy .dbf destination),
+    /// 2 = all shapes through the consuming ShapeWriter::write_shapes, 3 = through Writer::write_shapes_and_records
     #[serde(default)]
     pub route: u8,
     /// index into vlib::io::FAULT_KINDS: the io::ErrorKind the injected failures carry
@@ -40,8 +41,9 @@ impl Prop for DestFaults {
          with a marked io::Error. The harness brackets each API call with the destination's op counter: the call during which op k ran \
          must return Err(IoError(marked)) — not Ok, not a panic; a failed finalize is retried (after healing) and must then succeed, \
          and the completed run must leave files byte-identical to the clean run; dropping a writer on a failing destination must not \
-         panic. Short-write schedules {1,2,3,7 bytes per call, one generated sequence} must give byte-identical files. One case in three drives the complete \
-         Writer (write_shape_and_record, healthy .dbf destination) instead of the ShapeWriter; the injected error carries one of ten \
+         panic. Short-write schedules {1,2,3,7 bytes per call, one generated sequence} must give byte-identical files. One case in six drives the complete \
+         Writer (write_shape_and_record, healthy .dbf destination) instead of the ShapeWriter, one in three the consuming bulk calls \
+         (ShapeWriter::write_shapes, Writer::write_shapes_and_records: a failure among the ops of the writes must come back from the call); the injected error carries one of ten \
          io::ErrorKind values (Interrupted excluded: write_all retries it by contract). Inner evaluations = injected runs. Non-trivial: workload containing an explicit finalize (k then lands inside finalize / seek / flush calls)"
     }
     fn check(c: &FaultCase, ctx: &mut Ctx) -> Result<(), Fail> {
@@ -75,7 +77,7 @@ impl RandomProp for DestFaults {
                 shx_samples: 0,
             })
         });
-        (prop_oneof![60 => workload(4, 0), 1 => big.boxed()], any::<bool>(), proptest::collection::vec(1usize..12, 1..6), prop_oneof![2 => Just(0u8), 1 => Just(1u8)], 0u8..vlib::io::FAULT_KINDS.len() as u8)
+        (prop_oneof![60 => workload(4, 0), 1 => big.boxed()], any::<bool>(), proptest::collection::vec(1usize..12, 1..6), prop_oneof![3 => Just(0u8), 1 => Just(1u8), 1 => Just(2u8), 1 => Just(3u8)], 0u8..vlib::io::FAULT_KINDS.len() as u8)
             .prop_map(|(w, with_shx, chunks, route, kind)| FaultCase { w, with_shx, chunks, route, kind })
             .boxed()
     }
@@ -210,8 +212,91 @@ fn run<K: Kind>(shapes: &[K], st: &[Step], with_shx: bool, fault: Option<(bool, 
     }))
 }
 
+/// The consuming bulk calls: one API call writes every shape and then drops the writer. A failure while the shapes are
+/// being written must come back from that call; what fails inside the implicit finalize of the drop cannot be
+/// returned by anything (the property only asks that it does not panic).
+fn bulk_faults_k<K: Kind>(c: &FaultCase, shapes: &[K], ctx: &mut Ctx) -> Result<(), Fail> {
+    let rows: Vec<dbase::Record> = (0..shapes.len()).map(row).collect();
+    let run_bulk = |fault: Option<(bool, FaultMode)>| -> Result<(Result<(), Error>, Dest, Option<Dest>), String> {
+        let mk = |is_shx: bool| match fault {
+            Some((on_shx, m)) if on_shx == is_shx => Dest::with_fault_kind(m, c.kind),
+            _ => Dest::new(),
+        };
+        let shp = mk(false);
+        let shx = if c.with_shx { Some(mk(true)) } else { None };
+        let sw = match &shx {
+            Some(x) => ShapeWriter::with_shx(shp.clone(), x.clone()),
+            None => ShapeWriter::new(shp.clone()),
+        };
+        let r = guard(|| {
+            if c.route == 2 {
+                sw.write_shapes(shapes.iter())
+            } else {
+                let tw = dbase::TableWriterBuilder::new().add_numeric_field("idx".try_into().unwrap(), 10, 0).build_with_dest(Dest::new());
+                Writer::new(sw, tw).write_shapes_and_records(shapes.iter().zip(rows.iter()))
+            }
+        })?;
+        Ok((r, shp, shx))
+    };
+    // ops issued while the shapes are written (before the drop): measured on a writer that is not dropped yet
+    let (write_ops_shp, write_ops_shx) = {
+        let shp = Dest::new();
+        let shx = if c.with_shx { Some(Dest::new()) } else { None };
+        let mut sw = match &shx {
+            Some(x) => ShapeWriter::with_shx(shp.clone(), x.clone()),
+            None => ShapeWriter::new(shp.clone()),
+        };
+        for s in shapes {
+            sw.write_shape(s).map_err(|e| Fail::new("write-error", err_str(&e)))?;
+        }
+        let counts = (shp.ops(), shx.as_ref().map(|x| x.ops()).unwrap_or(0));
+        drop(sw);
+        counts
+    };
+    let (clean_r, clean_shp, clean_shx) = run_bulk(None).map_err(|p| Fail::new("panic", format!("bulk write panics: {}", p)))?;
+    clean_r.map_err(|e| Fail::new("spurious-error", format!("bulk write fails without an injected fault: {}", err_str(&e))))?;
+    let mut runs = 1u64;
+    for on_shx in [false, true] {
+        if on_shx && !c.with_shx {
+            continue;
+        }
+        let total = if on_shx { clean_shx.as_ref().map(|x| x.ops()).unwrap_or(0) } else { clean_shp.ops() };
+        let in_writes = if on_shx { write_ops_shx } else { write_ops_shp };
+        let ks: Vec<usize> = if total <= 3000 { (0..total).collect() } else { (0..total).filter(|k| *k < 300 || *k + 300 >= total || k % 97 == 0).collect() };
+        for k in ks {
+            for mode in [FaultMode::OneShot(k), FaultMode::Persistent(k)] {
+                runs += 1;
+                let what = format!("{} with the {} failing op #{} ({:?})", if c.route == 2 { "write_shapes" } else { "write_shapes_and_records" }, if on_shx { ".shx" } else { ".shp" }, k, mode);
+                let (r, shp, shx) = run_bulk(Some((on_shx, mode))).map_err(|p| Fail::new("panic", format!("{}: panics: {}", what, p)))?;
+                let fired = if on_shx { shx.as_ref().map(|x| !x.faults().is_empty()).unwrap_or(false) } else { !shp.faults().is_empty() };
+                match (&r, fired) {
+                    (Err(e), false) => fail!("spurious-error", "{}: fails although the fault never fired: {}", what, err_str(e)),
+                    (Ok(()), true) if k < in_writes => fail!(
+                        "fault-swallowed",
+                        "{}: the destination failed while the shapes were being written (ops 0..{} belong to the writes) but the call returned Ok",
+                        what,
+                        in_writes
+                    ),
+                    (Err(e), true) => match e {
+                        Error::IoError(io) if is_marked(io) => {}
+                        other => fail!("wrong-error", "{}: injected I/O failure surfaced as {:?}", what, other),
+                    },
+                    _ => {}
+                }
+            }
+        }
+    }
+    ctx.evals(runs);
+    ctx.class(if c.route == 2 { "bulk-shape-writer" } else { "bulk-complete-writer" });
+    Ok(())
+}
+
 fn faults_k<K: Kind>(c: &FaultCase, ctx: &mut Ctx) -> Result<(), Fail> {
     let shapes: Vec<K> = build_all(&c.w.geoms, Ctor::Plain);
+    if c.route >= 2 {
+        ctx.nontrivial();
+        return bulk_faults_k::<K>(c, &shapes, ctx);
+    }
     let st = steps(&c.w);
     if st.contains(&Step::Fin) {
         ctx.nontrivial();
